@@ -12,6 +12,7 @@ import (
 	"os"
 	"path/filepath"
 	"runtime"
+	"runtime/pprof"
 	"sort"
 	"strconv"
 	"strings"
@@ -28,7 +29,7 @@ const (
 	modPath    = "github.com/janelia-flyem/dvid"
 	verifDir   = "/verif"
 	harnessDir = "/verif/harness"
-	buildTags  = "badger verif"
+	buildTags  = "badger verif noasm"
 )
 
 // ---- registry --------------------------------------------------------------------
@@ -198,10 +199,11 @@ func runInstance(sh *Shared, fn *ssa.Function, params []int, cfg runCfg) Instanc
 	ex := &Explorer{}
 	deadline := start.Add(cfg.timeout)
 	witnesses := 0
+	ph := &pristineHeap{globals: map[*ssa.Global]*Node{}, initDone: map[*ssa.Package]bool{}}
 	for {
 		tb.Reset()
 		in := &Interp{prog: sh.prog, tb: tb, sol: sol, ex: ex, sh: sh,
-			globals: map[*ssa.Global]*Node{}, initDone: map[*ssa.Package]bool{}, nameCount: map[string]int{},
+			globals: map[*ssa.Global]*Node{}, pristine: ph, memo: map[interface{}]interface{}{}, nameCount: map[string]int{},
 			params: params, harness: fn.String(), maxSteps: cfg.maxSteps, unwind: cfg.unwind, maxCallDepth: 200, reached: map[string]bool{}}
 		ex.pos = 0
 		sol.Push()
@@ -266,6 +268,10 @@ func runPath(in *Interp, fn *ssa.Function) (out pathOutcome) {
 				out = pathOutcome{"abort", x.why}
 			case unsupported:
 				out = pathOutcome{"inconclusive", "unsupported: " + x.what}
+			case cutPath:
+				in.sh.stats.add("paths_cut", 1)
+				in.sh.noteCut(x.why)
+				out = pathOutcome{"cut", x.why}
 			case budgetExceeded:
 				out = pathOutcome{"inconclusive", "budget: " + x.what + " @ " + in.posString()}
 			case *goPanic:
@@ -274,7 +280,10 @@ func runPath(in *Interp, fn *ssa.Function) (out pathOutcome) {
 			default:
 				buf := make([]byte, 1<<14)
 				n := runtime.Stack(buf, false)
-				out = pathOutcome{"inconclusive", fmt.Sprintf("engine error: %v @ %s in %s\n%s", r, in.posString(), in.siteFunc(), buf[:n])}
+				if os.Getenv("GOSYM_TRACE") != "" {
+					fmt.Fprintf(os.Stderr, "engine error: %v\n%s\n", r, buf[:n])
+				}
+				out = pathOutcome{"inconclusive", fmt.Sprintf("engine error: %v @ %s in %s", r, in.posString(), in.siteFunc())}
 			}
 		}
 	}()
@@ -361,7 +370,13 @@ func cmdRun(args []string) {
 	timeout := fs.Int("timeout", 600, "seconds")
 	logDir := fs.String("log", "", "directory for solver transcripts")
 	solver := fs.String("solver", "z3", "z3 | z3-new | cvc5")
+	prof := fs.String("cpuprofile", "", "write CPU profile")
 	fs.Parse(args)
+	if *prof != "" {
+		f, _ := os.Create(*prof)
+		pprof.StartCPUProfile(f)
+		defer pprof.StopCPUProfile()
+	}
 	ov, pkgs := buildOverlay(nil)
 	var pats []string
 	for _, p := range pkgs {
